@@ -3,7 +3,7 @@
 # scratch copy of /verif and worktree of /repo (VERIF_REPO), so that several properties can be evaluated in parallel.
 # Prints one summary line per patch: "<Cxx> <patch> rc=<rc> <last line>".
 P="$1"; D="$2"; G="${3:-h*.diff}"
-S=$(/verif/lib/mkscratch.sh "pe_$P" | tail -1)
+S=$(/verif/lib/mkscratch.sh "pe_${P}_$$" | tail -1)
 export VERIF_REPO="$S/repo"
 cd "$S/verif" || exit 2
 for f in $D/$G; do
@@ -12,4 +12,4 @@ for f in $D/$G; do
   echo "$P ${f#$D/} rc=$RC $(grep -a 'VIOLATION\|theorems' "$S/out.txt" | tail -2 | tr '\n' ' ' | cut -c1-260)"
   git -C "$S/repo" checkout -- . ; git -C "$S/repo" clean -fdq
 done
-/verif/lib/rmscratch.sh "pe_$P" >/dev/null 2>&1
+/verif/lib/rmscratch.sh "pe_${P}_$$" >/dev/null 2>&1
